@@ -28,12 +28,21 @@ RULE = (
     "notification, all live groups and the outer sequence end with the source's terminal at its instant; an expiry at "
     "exactly the instant of source notifications may be ordered before or after the whole burst (both enumerated). "
     "Partition: first output = [(tick, x) for predicate-true elements], second = the rest, each followed by the source's "
-    "terminal.  Non-trivial: a key re-created after expiry, or >=2 groups open when the source errors; for partition both "
-    "outputs non-empty.  Distinct = distinct case JSON."
+    "terminal.  (c) element-derived durations (the documented group_by_until idiom): duration_mapper=lambda g: "
+    "g.pipe(skip(N-1)) (groups of N, N in 1..4) or g.pipe(filter(sentinel)) with a hashed sentinel predicate; closed-form "
+    "reference: group k of a key holds exactly N elements / ends at the sentinel element, which IS delivered to that group, "
+    "the group completes at that element's tick, the next element of that key opens a new group, the source terminal ends "
+    "the open groups and the outer sequence; an exception escaping into the scheduler/subscribe is a violation.  "
+    "(d) auxiliary resource clause on the same mechanism (check derived_early_exit, never-ending sources, take(k) on the "
+    "outer sequence, group subscribers unsubscribing 0..3 ticks after subscribing): once the outer subscriber and every "
+    "group subscriber have terminated or unsubscribed, no source subscription may remain open.  Non-trivial: a key "
+    "re-created after expiry, or >=2 groups open when the source errors (derived durations: when it terminates either "
+    "way); partition: both outputs non-empty; early exit: all consumers gone while a group's duration was still pending.  "
+    "Distinct = distinct case JSON."
 )
 ASSUMPTIONS = [
     "key identity is Python dict identity (== and hash): 0, 0.0 and False share one group, as do 1 and True; the group's key attribute is the key of the element that created it",
-    "duration observables never error and never fire synchronously inside the duration mapper (they are scheduled, possibly for the same instant)",
+    "timeline durations never error and never fire synchronously inside the duration mapper (they are scheduled, possibly for the same instant); element-derived durations fire synchronously from the element that expires the group, after the group subscriber (subscribed on emission) has received it",
     "same-instant order of a group expiry and the source burst is unspecified: either is accepted, consistently for the whole burst",
     "predicates and key/element functions are pure and total",
     "partition outputs are subscribed before the source emits (no synchronous-at-subscribe sources for partition)",
@@ -246,7 +255,139 @@ def _run_partition(case):
     return OK(n1 >= 1 and n2 >= 1, cls)
 
 
+# ------------------------------------------------------------------------------------------------
+# element-derived durations: duration_mapper=lambda g: g.pipe(skip(N-1)) ("groups of N") or g.pipe(filter(sentinel))
+
+
+def _derived_closes(rule):
+    if rule["mode"] == "count":
+        return lambda items, e: len(items) == rule["n"]
+    pr = hpred(rule["m"], rule["res"])
+    return lambda items, e: bool(pr(e))
+
+
+def _derived_reference(eff, keyfn, elemfn, rule):
+    """Group k of a key holds exactly N elements / ends at (and includes) the sentinel element; the next element
+    of that key opens a new group; the source terminal ends the open groups and the outer sequence."""
+    closes = _derived_closes(rule)
+    live, groups, seen = {}, [], set()
+    out = {"outer_end": None, "recreated": 0, "open_at_terminal": 0, "open_at_error": 0}
+    for t, k, pl in eff:
+        if k == "N":
+            key = keyfn(pl)
+            e = elemfn(pl)
+            g = live.get(key)
+            if g is None:
+                g = {"key": canon(key), "open": t, "items": [], "end": None}
+                if key in seen:
+                    out["recreated"] += 1
+                seen.add(key)
+                live[key] = g
+                groups.append(g)
+            g["items"].append([t, canon(e)])
+            if closes(g["items"], e):
+                g["end"] = [t, "C", None]
+                del live[key]
+        else:
+            term = [t, k, ["exc", pl] if k == "E" else None]
+            out["open_at_terminal"] = len(live)
+            if k == "E":
+                out["open_at_error"] = len(live)
+            for g in live.values():
+                g["end"] = term
+            live.clear()
+            out["outer_end"] = term
+            break
+    out["groups"] = groups
+    return out
+
+
+def _derived_duration(lab, rule):
+    if rule["mode"] == "count":
+        return lambda g: g.pipe(ops.skip(rule["n"] - 1))
+    pr = hpred(rule["m"], rule["res"])
+    return lambda g: g.pipe(ops.filter(lambda e: bool(pr(e))))
+
+
+def _run_derived(case):
+    f = "group_by_until"
+    sub = case.get("sub", 0)
+    rule = case["rule"]
+    early = case.get("take") is not None
+    lab = Lab()
+    src = lab.source(case["src"], "src")
+    keyfn = _keyfn(case["key"])
+    elemfn = _elemfn(case.get("elem"))
+    keyf = lab.fn("key", keyfn)
+    elemf = lab.fn("elem", elemfn) if case.get("elem") else None
+    durm = lab.fn("dur", _derived_duration(lab, rule))
+    keys = []
+    chain = [ops.group_by_until(keyf, elemf, durm), ops.do_action(lambda g: keys.append(canon(g.key)))]
+    if early:
+        chain.append(ops.take(case["take"]))
+    obs = src.pipe(*chain)
+    inner = dict(INNER)
+    if case.get("unsub") is not None:
+        inner["unsub"] = case["unsub"]
+    p = lab.probe("p", inner=inner)
+    if sub == 0:
+        try:
+            p.subscribe(obs)
+        except Exception as e:  # noqa: synchronous sources emit inside subscribe()
+            lab.escaped = e
+    else:
+        lab.at(sub, lambda: p.subscribe(obs))
+    if lab.escaped is None:
+        lab.run(until=_horizon(case) + 6)
+    cls = ["form:derived", "rule:" + rule["mode"], "src:" + case["src"]["kind"], "key:" + case["key"]["mode"]]
+    tl = case["src"]["tl"]
+    termk = tl[-1][1] if tl and tl[-1][1] in ("C", "E") else "never"
+    cls.append("term:" + termk)
+    if lab.inconclusive:
+        return SKIP(lab.inconclusive)
+    if lab.escaped is not None:
+        e = lab.escaped
+        return FAIL(
+            f"{f}:derived-duration:{type(e).__name__}-escaped-at-source-{termk}|{f}",
+            f"{type(e).__name__}: {e} escaped from the scheduler. case={case} outer={p.trace()} groups={[ip.trace() for ip in p.inners]}",
+            classes=cls,
+        )
+    for q in lab.probes:
+        ok, msg = q.grammar_ok()
+        if not ok:
+            return FAIL(f"{f}:derived-duration:grammar", f"{msg} case={case}", classes=cls)
+    if early:
+        # auxiliary resource clause (C02 on the C19 mechanism): once the outer subscriber and every group
+        # subscriber are gone, nothing may keep the source subscribed
+        gone = p.terminal() is not None and all(ip.terminal() is not None or ip.disposed_tick is not None for ip in p.inners)
+        cls.append("early-exit:" + ("all-consumers-gone" if gone else "consumer-still-subscribed"))
+        if gone and lab.open_subscriptions():
+            return FAIL(
+                f"{f}:derived-duration:source-still-subscribed-after-all-consumers-left|{f}",
+                f"case={case} src.subs={src.subs} outer={p.trace()} groups={[[ip.trace(), ip.disposed_tick] for ip in p.inners]}",
+                classes=cls,
+            )
+        pending = gone and any(ip.terminal() is None for ip in p.inners)
+        return OK(pending, cls + (["group-duration-pending-at-exit"] if pending else []))
+    got = _observe(p, keys)
+    eff = [[t, k, val(pl) if k == "N" else pl] for t, k, pl in _effective(case["src"], sub)]
+    ref = _derived_reference(eff, keyfn, elemfn, rule)
+    if case.get("elem"):
+        cls.append("element-mapper")
+    if ref["recreated"]:
+        cls.append("key-recreated-after-expiry")
+    if ref["open_at_terminal"] >= 2:
+        cls.append(f">=2-groups-open-at-{termk}")
+    if any(g["end"] and g["end"][1] == "C" and len(g["items"]) >= 2 and (ref["outer_end"] is None or g["end"][0] < ref["outer_end"][0] or g["end"] != ref["outer_end"]) for g in ref["groups"]):
+        cls.append("group-of->=2-closed-by-its-own-element")
+    if not _same(ref, got):
+        return FAIL(f"{f}:derived-duration:{_clause(ref, got)}|{f}", f"case={case} observed={got} expected={ {k: ref[k] for k in ('groups', 'outer_end')} }", classes=cls)
+    return OK(bool(ref["recreated"]) or ref["open_at_terminal"] >= 2, cls)
+
+
 def _run(case):
+    if case["form"] == "derived":
+        return _run_derived(case)
     if case["form"] in ("group_by", "group_by_until"):
         return _run_group(case)
     return _run_partition(case)
@@ -302,10 +443,31 @@ def _partition_cases(form):
     )
 
 
+_rule = st.one_of(
+    st.fixed_dictionaries({"mode": st.just("count"), "n": st.sampled_from([1, 2, 2, 3, 4])}),
+    st.fixed_dictionaries({"mode": st.just("sentinel"), "m": st.sampled_from([2, 3, 4]), "res": st.lists(st.integers(0, 3), min_size=1, max_size=2, unique=True)}),
+)
+
+
+@st.composite
+def _derived_cases(draw, early):
+    case = draw(_group_cases("group_by"))
+    case["form"] = "derived"
+    case["rule"] = draw(_rule)
+    if early:
+        tl = [m for m in case["src"]["tl"] if m[1] == "N"]  # the pipeline is ended from downstream, never by the source
+        case["src"]["tl"] = tl
+        case["take"] = draw(st.sampled_from([1, 2, 2, 3]))
+        case["unsub"] = draw(st.sampled_from([0, 1, 2, 3]))
+    return case
+
+
 def checks(tier):
     return [
         Check("group_by", _run, strategy=_group_cases("group_by"), examples={"quick": 800, "thorough": 16 * 5000}, shards={"quick": 4, "thorough": 16}),
         Check("group_by_until", _run, strategy=_group_cases("group_by_until"), examples={"quick": 2000, "thorough": 16 * 12000}, shards={"quick": 4, "thorough": 16}),
         Check("partition", _run, strategy=_partition_cases("partition"), examples={"quick": 400, "thorough": 16 * 2500}, shards={"quick": 4, "thorough": 16}),
         Check("partition_indexed", _run, strategy=_partition_cases("partition_indexed"), examples={"quick": 400, "thorough": 16 * 2500}, shards={"quick": 4, "thorough": 16}),
+        Check("derived_early_exit", _run, strategy=_derived_cases(True), examples={"quick": 500, "thorough": 16 * 3000}, shards={"quick": 4, "thorough": 16}),
+        Check("derived_duration", _run, strategy=_derived_cases(False), examples={"quick": 1200, "thorough": 16 * 8000}, shards={"quick": 4, "thorough": 16}),
     ]
